@@ -133,11 +133,11 @@ CHECKS = {
               "flags: balance (all flag families, valued and unvalued), register (all flag families), print, check --write, transcode, portfolio weights, portfolio returns. "
               "Oracle: the same argv is run K times (6 quick, 24 thorough) on the verif build with different KNUT_VERIF_SCHED perturbation seeds and GOMAXPROCS in {1,2,16,4,3,8}; "
               "exit status and stdout bytes must be equal in all runs (Go randomises map iteration per process, so repetition samples map orders; the hook shakes goroutine "
-              "arrival order). TestC06Prices runs the valued commands (balance -v, register -v, transcode, portfolio weights) on journals of the C12 price-graph generator (equal-length alternative paths, cycles, redeclarations, one unit of every commodity held). TestC06Infer repeats `knut infer` on training/target pairs of the C15 generator (ties between candidates included), TestC06Import repeats `knut import <format>` on statements of the eleven C13 generators (several currencies on one day included); C13 and C15 also compare repeated runs. Non-trivial: the input contains >=1 tie/alternative (sibling accounts, same-day "
+              "arrival order). TestC06Prices runs the valued commands (balance -v, register -v, transcode, portfolio weights) on journals of the C12 price-graph generator (equal-length alternative paths, cycles, redeclarations, one unit of every commodity held). TestC06Portfolio repeats `portfolio weights` (text/CSV, by weight or -a, --digits up to 16) and `portfolio returns` on the cases of the C20 generator with their own universe file, -m rule, filters and windows (zero totals with Inf/NaN shares included). TestC06Infer repeats `knut infer` on training/target pairs of the C15 generator (ties between candidates included), TestC06Import repeats `knut import <format>` on statements of the eleven C13 generators (several currencies on one day included); C13 and C15 also compare repeated runs. Non-trivial: the input contains >=1 tie/alternative (sibling accounts, same-day "
               "same-kind directives, several files, alternative price paths, performance targets); distinct by (files, argv)."),
         assumptions=["detection of an order dependence with per-run probability p is 1-(1-p)^(K-1) per input; the schedule is perturbed, not controlled"],
-        quick=dict(tests=[dict(name="TestC06", cases=3200), dict(name="TestC06Prices", cases=1600), dict(name="TestC06Infer", cases=640), dict(name="TestC06Import", cases=960)]),
-        thorough=dict(tests=[dict(name="TestC06", cases=16000), dict(name="TestC06Prices", cases=16000), dict(name="TestC06Infer", cases=4800), dict(name="TestC06Import", cases=8000)]),
+        quick=dict(tests=[dict(name="TestC06", cases=3200), dict(name="TestC06Prices", cases=1600), dict(name="TestC06Portfolio", cases=1600), dict(name="TestC06Infer", cases=640), dict(name="TestC06Import", cases=960)]),
+        thorough=dict(tests=[dict(name="TestC06", cases=16000), dict(name="TestC06Prices", cases=16000), dict(name="TestC06Portfolio", cases=16000), dict(name="TestC06Infer", cases=4800), dict(name="TestC06Import", cases=8000)]),
     ),
     "C05": dict(
         level="exploration",
